@@ -70,6 +70,7 @@ type c08env struct {
 // watch runs f under a generous watchdog; a firing watchdog is judged by the goroutine states, never by time alone.
 func (e *c08env) watch(what string, f func()) bool {
 	done := make(chan struct{})
+	cpu0 := gmon.CPUSeconds()
 	go func() {
 		defer close(done)
 		f()
@@ -81,6 +82,13 @@ func (e *c08env) watch(what string, f func()) bool {
 		sig, detail := gmon.Signature()
 		e.dead = true
 		if sig == "" {
+			// nobody waits for anything: is the operation itself burning time? Its goroutine is running inside the
+			// repository's code in each of six samples and the process has consumed more than fifteen seconds of processor
+			// time since the call (the operations watched here need well under one) - a loop that does not end
+			if frame, spinning := gmon.Spinning("checks.(*c08env).watch.func1", 6, 500*time.Millisecond); spinning && gmon.CPUSeconds()-cpu0 > 15 {
+				e.world.Violate("C08", "wedged/spinning/"+frame, fmt.Sprintf("%s did not return: its goroutine keeps running in %s and has consumed %.0f s of processor time", what, frame, gmon.CPUSeconds()-cpu0))
+				return false
+			}
 			e.w.R.Inconc(fmt.Sprintf("watchdog fired on %s without a recognisable goroutine signature", what))
 			return false
 		}
